@@ -79,6 +79,7 @@ def gen_inputs(tier, rng):
         filters += [qg.rand_filter(rng, rng.randint(0, 2), pairs) for _ in range(nfilt)]
         filters += rng.sample(qg.MALFORMED, 3)
         filters += shared_leaf_filters(rng, pairs)
+        filters += two_spelling_filters(rng, pairs)
         if i % 5 == 0:
             # integers that no double represents exactly next to their float neighbours (the int/float dual lookup
             # must compare exactly, as Python's == does)
@@ -111,6 +112,32 @@ def shared_leaf_filters(rng, pairs):
             ops.append({k: v, k2: v2})
         out.append({rng.choice(["$or", "$and"]): ops})
         out.append({"$or": ops, k: v})
+    return out
+
+
+def two_spelling_filters(rng, pairs):
+    """one mapping that names a state point key BOTH with and without its namespace ('a' next to 'sp.a'): two conditions
+    on one key, which prefixing makes textually equal"""
+    out = []
+    sp_pairs = [(k, v) for k, v in pairs if not k.startswith("doc.") and not isinstance(v, dict)]
+    for _ in range(3):
+        if not sp_pairs:
+            break
+        k, v = rng.choice(sp_pairs)
+        others = [w for kk, w in sp_pairs if kk == k] + [rng.choice(qg.SCALARS)]
+        w = rng.choice(others)
+        conds = [v, w, {"$ne": w}, {"$exists": True}, {"$in": [v, w]}, {"$type": qg.type_name(v)}]
+        a, b = rng.choice(conds), rng.choice(conds)
+        first, second = ((k, a), ("sp." + k, b)) if rng.random() < 0.5 else (("sp." + k, a), (k, b))
+        f = {first[0]: first[1], second[0]: second[1]}
+        r = rng.random()
+        if r < 0.25:
+            f["$and"] = [{k: {"$exists": True}}]
+        elif r < 0.4:
+            f = {"$or": [f, {k: w}]}
+        elif r < 0.5:
+            f = {"$not": f}
+        out.append(f)
     return out
 
 
